@@ -55,6 +55,48 @@ pub fn idx_mut(v: &mut Value, i: usize) -> Option<&mut Value> {
     }
 }
 
+#[derive(Clone, Copy, Debug)]
+pub enum Step<'s> {
+    K(&'s str),
+    I(usize),
+}
+
+pub fn at_mut<'a>(v: &'a mut Value, path: &[Step<'_>]) -> Option<&'a mut Value> {
+    let mut cur = v;
+    for s in path {
+        cur = match s {
+            Step::K(k) => get_mut(cur, k)?,
+            Step::I(i) => idx_mut(cur, *i)?,
+        };
+    }
+    Some(cur)
+}
+
+pub fn at<'a>(v: &'a Value, path: &[Step<'_>]) -> Option<&'a Value> {
+    let mut cur = v;
+    for s in path {
+        cur = match s {
+            Step::K(k) => get(cur, k)?,
+            Step::I(i) => match cur {
+                Value::Array(a) => a.get(*i)?,
+                _ => return None,
+            },
+        };
+    }
+    Some(cur)
+}
+
+pub fn uint(n: u64) -> Value {
+    Value::Integer(n.into())
+}
+
+pub fn as_u64(v: &Value) -> Option<u64> {
+    match v {
+        Value::Integer(i) => u64::try_from(i128::from(*i)).ok(),
+        _ => None,
+    }
+}
+
 pub fn arr_len(v: &Value) -> usize {
     match v {
         Value::Array(a) => a.len(),
